@@ -19,7 +19,9 @@ use crate::common::*;
 use crate::framework::*;
 
 global_entry_sink! { GlobalA }
-global_entry_sink! { GlobalB }
+// the second global is the one the library itself ships (metrique-service-metrics): the same macro, expanded in
+// that crate
+use metrique_service_metrics::ServiceMetrics as GlobalB;
 
 #[derive(Clone, Debug)]
 pub enum GK {
@@ -813,7 +815,7 @@ impl Scenario for GlobalRouting {
     }
     fn components(&self) -> Value {
         json!({
-            "real": ["global_entry_sink! expansion x2 (attach / try_sink / try_append / test sinks)", "AttachHandle", "ThreadLocalTestSinkGuard / TokioRuntimeTestSinkGuard", "BackgroundQueue as attached destination", "tokio runtime context (Handle::try_current)"],
+            "real": ["global_entry_sink! expansion x2, one of them metrique_service_metrics::ServiceMetrics (attach / try_sink / try_append / test sinks)", "AttachHandle", "ThreadLocalTestSinkGuard / TokioRuntimeTestSinkGuard", "BackgroundQueue as attached destination", "tokio runtime context (Handle::try_current)"],
             "simulated_seams": ["RwLock of the global (blocking in the simulator)", "thread / Parker / Instant of the queue"],
             "harness": ["2-4 threads, two current-thread tokio runtimes whose context a thread may enter", "recording destinations"],
             "stub": ["tokio runtimes only provide a context id; nothing is spawned on them"]
